@@ -25,6 +25,7 @@ type Cfg struct {
 	Wrapper    bool
 	OpState    bool
 	Shadow     bool // generated with ignore_shadow_schema_paths
+	Simplify   bool // path structs generated with simplify_wildcard_paths (all-wildcard key sets are omitted)
 	YangFiles  []string
 	YangPath   string
 	// PathRoot returns the root path struct when the package was generated with
